@@ -7,16 +7,24 @@ package control_loop
 //@ pure clampInt(x int, lo int, hi int) int = x < lo ? lo : (x > hi ? hi : x)
 //@ pure loopWF(l ControlLoop) bool = l != nil && (l is *PidControlLoop ==> l.(*PidControlLoop) != nil && l.(*PidControlLoop).pidLoop != nil) && (l is *DirectControlLoop ==> l.(*DirectControlLoop) != nil)
 
+//@ ghost var lastCycleOut int
 //@ func (*DirectControlLoop).Cycle
 //@   props C01 C04
+//@   ghostret lastCycleOut := result
+//@   ensures lastCycleOut == result
 //@   ensures[range C01 C04] 0 <= result && result <= 255
-//@   ensures[C04.direct] l.maxPwmChangePerCycle == nil ==> result == clampInt(target, 0, 255)
-//@   modifies l.lastTime
+//@   ensures[C04.direct C07] l.maxPwmChangePerCycle == nil && util.inInt32(target) ==> result == clampInt(target, 0, 255)
+//@   ensures[C04.ratelimit] l.maxPwmChangePerCycle != nil && *l.maxPwmChangePerCycle >= 1 && *l.maxPwmChangePerCycle <= 255 && 0 <= current && current <= 255 && util.inInt32(target) ==> result - current <= *l.maxPwmChangePerCycle && current - result <= *l.maxPwmChangePerCycle
+//@   ensures[C04.toward] l.maxPwmChangePerCycle != nil && *l.maxPwmChangePerCycle >= 1 && *l.maxPwmChangePerCycle <= 255 && 0 <= current && current <= 255 && util.inInt32(target) ==> (target >= current ==> result >= current && result <= max(current, clampInt(target, 0, 255))) && (target <= current ==> result <= current && result >= min(current, clampInt(target, 0, 255)))
+//@   ensures[C04.reach] l.maxPwmChangePerCycle != nil && *l.maxPwmChangePerCycle >= 1 && *l.maxPwmChangePerCycle <= 255 && 0 <= current && current <= 255 && util.inInt32(target) && abs(target - current) <= *l.maxPwmChangePerCycle ==> result == clampInt(target, 0, 255)
+//@   modifies l.lastTime, lastCycleOut
 
 //@ func (*PidControlLoop).Cycle
 //@   props C01 C04
 //@   requires l.pidLoop != nil
-//@   modifies l.pidLoop.integral, l.pidLoop.error, l.pidLoop.lastTime, lastPidOut
+//@   ghostret lastCycleOut := result
+//@   ensures lastCycleOut == result
+//@   modifies l.pidLoop.integral, l.pidLoop.error, l.pidLoop.lastTime, lastPidOut, lastCycleOut
 
 //@ func NewDirectControlLoop
 //@   ensures result != nil && fresh(result)
